@@ -267,16 +267,36 @@ def frontier_reach_form(ctx, pid):
         ctx.anchor_lost(rule, 'thread_threshold: pop of the frontier queue')
         return
 
-    def popfield(x):
-        """k if x is component k of the popped tuple"""
-        x = norm(x)
-        if x[0] == 'field' and x[2].isdigit():
-            y = norm(x[1])
-            if y[0] == 'field' and y[2] == '0':
-                z = norm(y[1])
-                if z[0] == 'downcast' and z[2] == 'Some' and norm(z[1])[0] == 'call' and any(norm(z[1])[3] == p_[3] for p_ in pops):
-                    return int(x[2])
+    def struct_field_comp(name):
+        """canonical component (1 chance reach / 2 player reaches) of a field of a private reach struct, by its type"""
+        tys = {v['ftys'][v['fields'].index(name)] for n_, vs in lib.adts.items() if n_.startswith('solve::') and len(vs) == 1 for v in vs
+               if name in v.get('fields', []) and len(v.get('ftys', [])) == len(v['fields'])}
+        if tys == {'f64'}:
+            return 1
+        if tys == {'[f64; 2]'}:
+            return 2
         return None
+
+    def popfield(x):
+        """canonical component of the popped item x denotes: 0 node, 1 chance reach, 2 player reaches, 'R' the whole reach
+        struct of a (node, Reach) item"""
+        x = norm(x)
+        chain = []
+        while x[0] == 'field':
+            chain.append(x[2])
+            x = norm(x[1])
+        if not (x[0] == 'downcast' and x[2] == 'Some' and norm(x[1])[0] == 'call' and any(norm(x[1])[3] == p_[3] for p_ in pops)):
+            return None
+        chain.reverse()
+        if not chain or chain[0] != '0':
+            return None
+        chain = chain[1:]
+        if len(chain) == 1 and chain[0].isdigit():
+            return int(chain[0]) if ARITY[0] == 3 else ('R' if chain[0] == '1' else int(chain[0]))
+        if len(chain) == 2 and chain[0] == '1' and ARITY[0] == 2:
+            return struct_field_comp(chain[1])
+        return None
+    ARITY = [3]
 
     def reach_comp(x):
         """k if x is component k of the popped player-reach array"""
@@ -288,9 +308,32 @@ def frontier_reach_form(ctx, pid):
         return None
 
     sites = []
+    def triple(item, g_):
+        """(node, chance reach, player reaches) of a queued item: a 3-tuple, or (node, Reach { chance, player })"""
+        item = strip_refs(item)
+        if item[0] != 'agg' or item[1] != 'tuple':
+            return None
+        if len(item[2]) == 3:
+            return item
+        if len(item[2]) == 2:
+            r = strip_refs(item[2][1])
+            if r[0] == 'agg' and r[1].startswith('adt:') and len(r[2]) == 2:
+                adt = lib.adts.get(r[1][4:].rsplit('::', 1)[0])
+                if adt and sorted(adt[0].get('ftys', [])) == ['[f64; 2]', 'f64']:
+                    ARITY[0] = 2
+                    i = adt[0]['ftys'].index('f64')
+                    return ('agg', 'tuple', (item[2][0], r[2][i], r[2][1 - i]))
+            if r[0] == 'var':
+                adt = lib.adts.get(g_.locals[r[1]]['ty'])
+                if adt and sorted(adt[0].get('ftys', [])) == ['[f64; 2]', 'f64']:
+                    # a copy of the popped reach struct scaled in place: present its two fields
+                    ARITY[0] = 2
+                    fc, fp = adt[0]['fields'][adt[0]['ftys'].index('f64')], adt[0]['fields'][adt[0]['ftys'].index('[f64; 2]')]
+                    return ('agg', 'tuple', (item[2][0], ('field', r, fc), ('field', r, fp)))
+        return None
     for bi, t, e in q.calls_named(f, 'push'):
-        item = strip_refs(e[2][1])
-        if item[0] == 'agg' and item[1] == 'tuple' and len(item[2]) == 3:
+        item = triple(e[2][1], f)
+        if item is not None:
             sites.append((f, bi, f.conds(bi), item, None))
     for bi, t, e in q.calls_named(f, 'extend'):
         mp = q.find_sub(e[2][1], lambda x: q.is_call(x, 'map')) if len(e[2]) > 1 else None
@@ -299,8 +342,8 @@ def frontier_reach_form(ctx, pid):
         cf, _ = q.closure_of(lib, mp[2][1])
         if cf is None or not cf.is_closure:
             continue
-        r = strip_refs(q.ret_expr(cf))
-        if r[0] == 'agg' and r[1] == 'tuple' and len(r[2]) == 3:
+        r = triple(q.ret_expr(cf), cf)
+        if r is not None:
             ctx.touch(cf)
             sites.append((cf, bi, f.conds(bi), r, cf))
     n = 0
@@ -376,8 +419,47 @@ def frontier_reach_form(ctx, pid):
                     if good is None:
                         break
                 how2 = None if good is None else ('own-scaled' if good else 'scaled-otherwise')
-        elif x2[0] == 'agg' and x2[1] == 'array':
-            how2 = None
+        elif x2[0] == 'agg' and x2[1] == 'array' and len(x2[2]) == 2:
+            # an array literal whose elements are chosen per acting player upstream (`let (own, other) = match num {..}`):
+            # evaluate it under each PlayerNum context
+            host = f if cf is not None else g
+
+            def spec(x, pn, depth=0):
+                x = q.simplify(x)
+                if depth > 5 or not isinstance(x, tuple):
+                    return x
+                if x[0] == 'var':
+                    vals = q.multi_def_values(host, x[1])
+                    pick = [v for _, cs_, v in vals if any(c['kind'] == 'variant' and c['variants'] == [pn] for c in cs_)]
+                    if len(pick) == 1:
+                        return spec(pick[0], pn, depth + 1)
+                    if len(vals) == 1:
+                        return spec(vals[0][2], pn, depth + 1)
+                    return x
+                if x[0] == 'call':
+                    return (x[0], x[1], tuple(spec(a, pn, depth + 1) for a in x[2]), x[3])
+                if x[0] == 'agg':
+                    return (x[0], x[1], tuple(spec(a, pn, depth + 1) for a in x[2]))
+                return tuple(spec(a, pn, depth + 1) if isinstance(a, tuple) else a for a in x)
+            good = True
+            for pn, acting in (('One', 0), ('Two', 1)):
+                for k, el in enumerate(x2[2]):
+                    pe = e4.try_poly(q.simplify(spec(res(el), pn)))
+                    if pe is None or len(pe) != 1 or list(pe.values()) != [1.0]:
+                        good = None
+                        break
+                    atoms = [a[1] for a in list(pe)[0] if a[0] == 'val']
+                    comps = [reach_comp(a) for a in atoms]
+                    if len(atoms) != len(list(pe)[0]) or not any(c_ is not None for c_ in comps):
+                        good = None
+                        break
+                    base_ok = comps.count(k) == 1 and all(c_ is None or c_ == k for c_ in comps)
+                    n_other = sum(1 for c_ in comps if c_ is None)
+                    if not base_ok or n_other != (1 if k == acting else 0):
+                        good = False
+                if good is None:
+                    break
+            how2 = None if good is None else ('own-scaled' if good else 'scaled-otherwise')
         want2 = 'unchanged' if arm == 'Chance' else 'own-scaled'
         if k1 is None or how2 is None:
             ctx.anchor_lost(rule, 'thread_threshold: reach of a queued child below a %s node (shape not recognised)' % arm.lower())
